@@ -26,15 +26,15 @@ plan('C09',
           'a sentinel file outside the root; (e) all strings of URL metacharacters up to a length through Url(), Url::decode, parseQuery. distinct = hash of the stream / target / string',
      jobs=[
          FuzzJob('fz_url', quick=200000, thorough=6000000, procs=(4, 12), max_len=200),
-         Job(H, 'wellformed', 'asan', quick=1200, thorough=40000, shards=(4, 8), batch=100),
-         Job(H, 'wellformed', 'plain', quick=2000, thorough=60000, shards=(3, 6), batch=200),
+         Job(H, 'wellformed', 'asan', quick=1200, thorough=40000, shards=(4, 8), batch=100, case_timeout=250),
+         Job(H, 'wellformed', 'plain', quick=2000, thorough=60000, shards=(3, 6), batch=200, case_timeout=250),
          Job(H, 'cuts', 'asan', quick=40, thorough=1200, shards=(4, 8), batch=10, case_timeout=200),
          Job(H, 'cuts', 'plain', quick=40, thorough=1200, shards=(2, 4), batch=10, case_timeout=200),
          Job(H, 'mutants', 'asan', quick=2500, thorough=80000, shards=(4, 10), batch=100, case_timeout=120),
          Job(H, 'mutants', 'plain', quick=2500, thorough=60000, shards=(2, 6), batch=200, case_timeout=120),
-         Job(H, 'targets', 'asan', quick=(ntargets(8) + PER - 1) // PER, thorough=(ntargets(11) + PER - 1) // PER, shards=(4, 8), params=dict(maxchars=8, per=PER), tparams=dict(maxchars=11), batch=50),
-         Job(H, 'targets', 'plain', quick=(ntargets(9) + PER - 1) // PER, thorough=(ntargets(12) + PER - 1) // PER, shards=(4, 8), params=dict(maxchars=9, per=PER), tparams=dict(maxchars=12), batch=100),
-         Job(H, 'targets_rand', 'asan', quick=400, thorough=15000, shards=(2, 4), batch=50),
+         Job(H, 'targets', 'asan', quick=(ntargets(8) + PER - 1) // PER, thorough=(ntargets(11) + PER - 1) // PER, shards=(4, 8), params=dict(maxchars=8, per=PER), tparams=dict(maxchars=11), batch=50, case_timeout=250),
+         Job(H, 'targets', 'plain', quick=(ntargets(9) + PER - 1) // PER, thorough=(ntargets(12) + PER - 1) // PER, shards=(4, 8), params=dict(maxchars=9, per=PER), tparams=dict(maxchars=12), batch=100, case_timeout=250),
+         Job(H, 'targets_rand', 'asan', quick=400, thorough=15000, shards=(2, 4), batch=50, case_timeout=250),
          Job(H, 'url', 'asan', quick=urlblocks(5, 2000), thorough=urlblocks(6, 2000), shards=(4, 8), params=dict(maxlen=5, blk=2000), tparams=dict(maxlen=6)),
          Job(H, 'url_rand', 'asan', quick=300, thorough=10000, shards=(2, 4)),
      ],
